@@ -16,33 +16,40 @@ structure Acc where
   errs : Nat := 0
   filtered : List Ev := []
 
-def mkTurn (thr top : Nat) (r : Recv) (t : Nat) : Turn :=
-  { throttle1 := thr, clock1 := top, recv := r, closedAfter := false, clock2 := t, clock3 := t, throttle2 := thr }
+def mkTurn (thr1 top : Nat) (r : Recv) (t thr2 : Nat) : Turn :=
+  { throttle1 := thr1, clock1 := top, recv := r, closedAfter := false, clock2 := t, clock3 := t, throttle2 := thr2 }
 
-/-- run calls of `throttle_collect` until the arrivals are used up and the last window has closed -/
-def sim (thr : Nat) : Nat → List Arr → TS → Acc → Acc
+/-- the throttle in effect at time `t`: the last change made at or before `t` -/
+def thrAt (thr0 : Nat) (changes : List (Nat × Nat)) (t : Nat) : Nat :=
+  changes.foldl (fun cur (off, v) => if off ≤ t then v else cur) thr0
+
+/-- run calls of `throttle_collect` until the arrivals are used up and the last window has closed.
+    `thr` maps a time to the throttle configured then; each loop iteration reads it at its top and after a push. -/
+def sim (thr : Nat → Nat) : Nat → List Arr → TS → Acc → Acc
   | 0, _, _, a => a
   | fuel + 1, arrs, s, a =>
     let finishBatch (st : Step) (a : Acc) (rest : List Arr) : Acc :=
       match st.batch with
       | some (b, at_, _) => sim thr fuel rest { set := [], last := a.now } { a with batches := a.batches ++ [(b, at_)] }
       | none => a
-    let windowClose : Acc :=
-      -- the timeout elapses at last + throttle, then the top of the loop sees the window over
-      let a1 := { a with now := s.last + thr }
-      let st1 := turn s (mkTurn thr a.now .timeout a1.now)
+    -- the deadline armed at the top of this iteration
+    let top := a.now
+    let deadline := s.last + thr top
+    let timeoutTurn : Unit → Acc := fun _ =>
+      -- the timeout elapses (or the window is already over at the top); the next iteration re-reads the throttle
+      let fire := if deadline < top then top else deadline
+      let st1 := turn s (mkTurn (thr top) top .timeout fire (thr fire))
+      let a1 := { a with now := fire }
       match st1.next with
-      | some s1 =>
-        let st2 := turn s1 (mkTurn thr a1.now .timeout a1.now)
-        finishBatch st2 a1 arrs
+      | some s1 => sim thr fuel arrs s1 a1
       | none => finishBatch st1 a1 arrs
     match arrs with
-    | [] => if s.set.isEmpty then a else windowClose
+    | [] => if s.set.isEmpty then a else timeoutTurn ()
     | x :: rest =>
       let t := if x.at_ < a.now then a.now else x.at_
-      if !s.set.isEmpty && s.last + thr ≤ t then windowClose
+      if !s.set.isEmpty && deadline ≤ t then timeoutTurn ()
       else
-        let st := turn s (mkTurn thr a.now (.got x.ev) t)
+        let st := turn s (mkTurn (thr top) top (.got x.ev) t (thr t))
         let a := { a with now := t, errs := a.errs + st.errs.length, filtered := a.filtered ++ st.filtered }
         match st.next with
         | some s' => sim thr fuel rest s' a
@@ -60,9 +67,11 @@ def parseArr (i : Nat) (s : String) : Arr :=
 def handleLine (line : String) : String :=
   match line.splitOn " " with
   | [id, thr, _, arrs] =>
-    let as := (arrs.splitOn ",").zipIdx.map (fun (s, i) => parseArr i s)
+    let items := arrs.splitOn ","
+    let changes : List (Nat × Nat) := items.filterMap (fun s => match s.splitOn ":" with | [off, "T", ms] => some (off.toNat!, ms.toNat!) | _ => none)
+    let as := ((items.filter (fun s => match s.splitOn ":" with | [_, "T", _] => false | _ => true)).zipIdx).map (fun (s, i) => parseArr i s)
     let nm (e : Ev) : String := (as[e.id]?.map (·.name)).getD "?"
-    let r := sim thr.toNat! (4 * as.length + 8) as {} {}
+    let r := sim (thrAt thr.toNat! changes) (6 * as.length + 4 * changes.length + 8) as {} {}
     id ++ " batches=" ++ ",".intercalate (r.batches.map (fun (b, _) => "+".intercalate (b.map nm)))
       ++ " errs=" ++ toString r.errs ++ " filtered=" ++ "+".intercalate (r.filtered.map nm)
   | _ => "bad-line"
